@@ -21,7 +21,11 @@ type Reach struct {
 // reachFrom computes the functions reachable from roots. Edges through
 // dependencies are followed (callbacks, fmt → String), so the set is sound for
 // reflection-free code under VTA.
-func (p *Prog) reachFrom(roots []*ssa.Function) *Reach {
+func (p *Prog) reachFrom(roots []*ssa.Function) *Reach { return p.reachFromCut(roots, nil) }
+
+// reachFromCut: functions for which stop returns true are included but not
+// expanded.
+func (p *Prog) reachFromCut(roots []*ssa.Function, stop func(*ssa.Function) bool) *Reach {
 	r := &Reach{Set: map[*ssa.Function]bool{}, parent: map[*ssa.Function]*callgraph.Edge{}}
 	var q []*ssa.Function
 	for _, f := range roots {
@@ -33,6 +37,9 @@ func (p *Prog) reachFrom(roots []*ssa.Function) *Reach {
 	for len(q) > 0 {
 		f := q[0]
 		q = q[1:]
+		if stop != nil && stop(f) {
+			continue
+		}
 		n := p.CG.Nodes[f]
 		if n == nil {
 			continue
